@@ -3,11 +3,13 @@ import itertools
 import json
 
 from harness.gallina import gbool, glist, gn, gpair, gstr
+from harness.props import C10merge
 from harness.props import tscommon as T
 from harness.props.tscommon import Tree, gbits, gop, gostr, gout, gres_bool, gstrs
 
 ID = "C10"
-COQ_TARGETS = ["TS.vo", "TSProofs.vo", "TSProofs2.vo", "CorrC10.vo", "Props/C10.vo"]
+COQ_TARGETS = ["TS.vo", "TSProofs.vo", "TSProofs2.vo", "C10Merge.vo", "CorrC10.vo", "CorrC10merge.vo", "Props/C10.vo"]
+SUBSUITES = {"merge": C10merge}
 PROPS_FILE = "Props/C10.v"
 CORR_IMPORTS = "Base TS CorrC10"
 OPEN_SCOPES = ["string_scope", "list_scope"]
@@ -24,7 +26,15 @@ RULE = (
     "descendants, is_primitive per name; get_type/contains_type over full, short, unknown and ambiguous strings; 8-12 pairs of "
     "strings (parent, child), each a full, unique short, ambiguous or unknown name, go through ts.subsumes and is_instance_of "
     "(and through is_instance_of with one side passed as the registered Type); object identity of every reachable Type. "
-    "Every 200th case queries all registered types. Non-trivial: two user types in an ancestor relation, or a refused operation."
+    "Every 200th case queries all registered types. Non-trivial: two user types in an ancestor relation, or a refused operation. "
+    "Sub-suite 'merge' (harness/props/C10merge.py, coq/CorrC10merge.v): 2-3 input type systems built once and a program of "
+    "stages run on those live objects - merge_typesystems over any objects of the table (the same input in several merges, a "
+    "merge result merged again), create_type / create_feature applied in place to an input or a merge result; before the first "
+    "and after every stage ALL objects are queried again (supertype of every type, children, descendants, the three subsumes "
+    "forms and is_instance_of on all pairs of user types + TOP/AnnotationBase/Annotation, object identity of every reachable "
+    "Type) and compared with the model's value of that object (Merge.v on TS.v) and with the declared tree of the oracle "
+    "(most specific declared supertype; reachability in the union of the declared edges). Quick: all ordered pairs of 11 "
+    "declarations of {m.A, m.B, m.C} under three programs + 80 seeded random cases over 5 types on a random guide forest."
 )
 TRUSTED = [
     "Coq 8.16.1 kernel and vm_compute; theorems in Props/C10.v are closed under the global context",
@@ -34,10 +44,13 @@ TRUSTED = [
     "correspondence harness harness/props/C10.py + tscommon.py builds real objects through the public API; harness/core.py "
     "compares inside Coq; oracle = independent tree bookkeeping in Python with a hand-written table of the built-in types",
     "the ghost rank supplies the fuel of the recursive queries; the theorems state that it suffices",
+    "merged type systems: C13's model coq/Merge.v of merge_typesystems (its own correspondence check ties it to /repo; here it "
+    "is evaluated on every merge stage and compared again) and MergeProofs.merge_WFh",
 ]
 ASSUMPTIONS = [
-    "type systems built by create_type / create_feature / instantiation from TypeSystem(); XML, JSON and merge constructors are "
-    "C12, C13, C02 (theorems are stated for every ts with WF ts)",
+    "type systems built by create_type / create_feature / instantiation from TypeSystem() and by merge_typesystems of such type "
+    "systems, nested and extended (C10_built_WF; sub-suite 'merge'); a merge that raises ValueError is not judged here (which "
+    "inputs must merge is C13); XML and JSON constructors are C12, C02 (theorems are stated for every ts with WFh ts)",
     "identifiers are ASCII; type names are non-empty and do not end in a dot",
     "is_instance_of on arbitrary strings is compared with the model on every string pair; the oracle demands the declared "
     "relation (or TypeNotFoundError for a name get_type does not resolve) except where the code compares the strings before "
@@ -447,25 +460,7 @@ def distribution(scenarios, observations):
                                      if g is None and "." not in x and x in ("A", "T0", "T1", "U0", "U1", "V0", "W0"))}
 
 
-def _tree_failures(ts):
-    """One tree rooted at uima.cas.TOP?  Checked from the type objects alone (no cassis query is trusted)."""
-    types = {t.name: t for t in ts.get_types(built_in=True)}
-    out = []
-    for n, t in types.items():
-        cur, steps = t, 0
-        while cur is not None and cur.name != "uima.cas.TOP" and steps <= len(types):
-            cur, steps = cur.supertype, steps + 1
-        if cur is None or cur.name != "uima.cas.TOP":
-            out.append(f"supertype chain of {n} does not reach uima.cas.TOP")
-        if t.supertype is not None:
-            if types.get(t.supertype.name) is not t.supertype:
-                out.append(f"supertype of {n} is not the registered {t.supertype.name}")
-            if sum(1 for c in t.supertype.children if c is t) != 1:
-                out.append(f"{n} is not exactly once among the children of its supertype {t.supertype.name}")
-        for c in t.children:
-            if c.supertype is not t:
-                out.append(f"{c.name} is a child of {n} but its supertype is {c.supertype.name if c.supertype else None}")
-    return out
+_tree_failures = C10merge.tree_failures
 
 
 def merge_tree_obligation(cassis, rng, n):
@@ -502,8 +497,9 @@ def merge_tree_obligation(cassis, rng, n):
 
 
 def extra_checks(ctx):
+    from harness import core
     return [T.observed_init_check(ctx["cassis"], ID),
-            merge_tree_obligation(ctx["cassis"], ctx["rng"], 60 if ctx["tier"] == "quick" else 600)]
+            merge_tree_obligation(ctx["cassis"], ctx["rng"], 60 if ctx["tier"] == "quick" else 600)] + core.run_subsuite(C10merge, ctx)
 
 
 MANIFEST = {
@@ -513,11 +509,14 @@ MANIFEST = {
                   "create_type / create_feature / instantiation of every history, and that under WF children, descendants (with a "
                   "stated fuel bound), Type.subsumes (incl. the TOP shortcut), TypeSystem.subsumes and is_instance_of all decide the "
                   "declared supertype relation, get_type / contains_type resolve full and unique short names and fail otherwise, "
-                  "final types cannot be subtyped and no name can be defined twice; refused operations change nothing. The model is "
+                  "final types cannot be subtyped and no name can be defined twice; refused operations change nothing. The invariant is "
+                  "also proved for the closure `built` of TypeSystem() under histories and merge_typesystems (nested, extended, "
+                  "one type system in several merges; on C13's model Merge.v). The model is "
                   "tied to /repo on every run by evaluating it inside Coq on the histories the implementation was run on.",
     "level_note": "Trusted: Coq kernel + vm_compute; hand-written model coq/TS.v (types refer to each other by name; Python object "
                   "identity is observed with `is` by the harness, not modelled); the initial state is compared with the observed "
-                  "TypeSystem() on every run; XML/JSON/merge constructors are C12/C13/C02 (theorems are stated for every WF ts). "
+                  "TypeSystem() on every run; XML/JSON constructors are C12/C02 (theorems are stated for every WF ts); which inputs "
+                  "merge_typesystems must accept is C13. "
                   "Print Assumptions: closed under the global context.",
     "technique": "Coq proof over an executable Gallina model + in-Coq behavioural correspondence (exhaustive short histories, random deep trees)",
     "design_ref": "DESIGN.md section 5, C10",
